@@ -12,6 +12,9 @@
 // Part B (padded twin on all small sources): every sequence of at most 5 (thorough: 6) pieces from
 // {{ }} {% %} {# #} - space a \ { } "if x" "endif" LF is rendered bare and behind a 4100-byte comment
 // (thorough: also behind 4100 bytes of literal text): same success/failure class and same output.
+//
+// Comment-bearing bases (comments.go) go through part A: a comment inside a verbatim body and comments
+// directly next to dashed delimiters. Part C repeats part B with whole tags as pieces (runTagSeq).
 package main
 
 import (
@@ -83,6 +86,9 @@ func init() {
 	for i, e := range exprs {
 		corpus = append(corpus, &base{name: fmt.Sprintf("expr%02d", i), segs: []seg{T("p@"), V(e), T("@q")}, noModel: true})
 	}
+	for i := range commentBases {
+		corpus = append(corpus, &commentBases[i])
+	}
 }
 
 type lr struct{ l, r bool }
@@ -130,11 +136,25 @@ func (b *base) points(texts []string, d []lr) []int {
 			continue
 		}
 		if j > 0 && j < len(b.segs) {
-			l, rr := j-1, j
-			if d[l].r && b.segs[rr].k == 't' && len(texts[rr]) > 0 && isWS(texts[rr][0]) {
+			// Look left and right of the point across comments and empty texts. If a dashed delimiter
+			// faces the point on one side and the first non-empty text on the other side begins / ends
+			// with whitespace, the insertion would stand between the dash and whitespace it reaches
+			// (directly) or may reach (across comments: not determined by the statement).
+			skip := func(i int) bool { return b.segs[i].k == 'c' || (b.segs[i].k == 't' && texts[i] == "") }
+			l := j - 1
+			for l > 0 && skip(l) {
+				l--
+			}
+			rr := j
+			for rr < len(b.segs)-1 && skip(rr) {
+				rr++
+			}
+			isTag := func(i int) bool { return b.segs[i].k == 'v' || b.segs[i].k == 'b' }
+			isTxt := func(i int) bool { return b.segs[i].k == 't' && texts[i] != "" }
+			if isTag(l) && d[l].r && isTxt(rr) && isWS(texts[rr][0]) {
 				continue
 			}
-			if d[rr].l && b.segs[l].k == 't' && len(texts[l]) > 0 && isWS(texts[l][len(texts[l])-1]) {
+			if isTag(rr) && d[rr].l && isTxt(l) && isWS(texts[l][len(texts[l])-1]) {
 				continue
 			}
 		}
@@ -423,16 +443,61 @@ func runSmall(t *vlib.T, from, to int) {
 	}
 }
 
+// ---- part C: every short sequence of whole tags, bare and behind 4100 bytes -------------------------
+//
+// Part B's pieces are lexical, so five of them never spell "comment next to a dashed delimiter next to
+// whitespace" or "comment inside verbatim". Part C repeats the same differential with whole tags as
+// pieces (print tag plain / dashed left / dashed right, comment, space, letter, line break, if / endif
+// plain and dashed, verbatim / endverbatim): every sequence of at most 5 of them.
+
+var tagPieces = []string{"{{ a }}", "{{- a }}", "{{ a -}}", "{# c #}", " ", "x", "\n", "{% if x %}", "{%- if x -%}", "{% endif %}", "{%- endif -%}", "{% verbatim %}", "{% endverbatim %}"}
+
+func runTagSeq(t *vlib.T, to int) {
+	for n := 1; n <= to; n++ {
+		idx := make([]int, n)
+		for {
+			var sb, id strings.Builder
+			for _, i := range idx {
+				sb.WriteString(tagPieces[i])
+				id.WriteByte(byte('a' + i))
+			}
+			src := sb.String()
+			t.Case("tagseq/"+id.String(), func() *vlib.Outcome {
+				o := smallCase(src, t.Thorough())
+				o.Class = "tagseq" + strings.TrimPrefix(o.Class, "small")
+				o.Nontrivial = n > 1 && o.Nontrivial
+				return o
+			})
+			k := n - 1
+			for k >= 0 {
+				idx[k]++
+				if idx[k] < len(tagPieces) {
+					break
+				}
+				idx[k] = 0
+				k--
+			}
+			if k < 0 || t.Stopped() {
+				break
+			}
+		}
+		if t.Stopped() {
+			return
+		}
+	}
+}
+
 func main() {
 	vlib.Main(vlib.Spec{
 		ID:    "C14",
 		Level: "exploration",
-		Rule: "A: every corpus template (every tag kind; 44 expression templates) x {no dash, each single dash, all dashes} x every admissible insertion point (and all at once) x padding kind " +
+		Rule: "A: every corpus template (every tag kind; 44 expression templates; 13 templates with a comment inside a verbatim body or directly next to a (dashed) delimiter with whitespace text on its other side) x {no dash, each single dash, all dashes} x every admissible insertion point (and all at once) x padding kind " +
 			"(literal text, one long comment, many short comments, multi-byte text with line breaks, alternating text and comments) x every total length around 1 KiB, 4 KiB (tokenizer switch), 20 KiB, 64 KiB, 100 KiB and 300 KB, " +
 			"compared with the unpadded rendering plus the visible padding; non-trivial = the template has a dash or more than one tag or an operator expression. " +
-			"B: every sequence of at most 5 (thorough 6) pieces of {{ }} {% %} {# #} - space a \\ { } 'if x' endif LF, bare vs behind 4100 bytes; non-trivial = the source contains a tag opener",
+			"B: every sequence of at most 5 (thorough 6) pieces of {{ }} {% %} {# #} - space a \\ { } 'if x' endif LF, bare vs behind 4100 bytes; non-trivial = the source contains a tag opener. " +
+			"C: every sequence of at most 5 whole tags of {{ a }} {{- a }} {{ a -}} {# c #} space x LF {% if x %} {%- if x -%} {% endif %} {%- endif -%} {% verbatim %} {% endverbatim %}, bare vs behind 4100 bytes; non-trivial = at least two pieces, one of them a tag",
 		Assumptions: []string{
-			"padding is inserted at segment boundaries only, never inside a verbatim body and never between a dashed delimiter and the whitespace it trims",
+			"padding is inserted at segment boundaries only, never inside a verbatim body and never between a dashed delimiter and the whitespace it trims (nor between such a delimiter and that whitespace across comments)",
 			"the expected output of a padded template is derived from the same implementation's rendering of the unpadded template (below every threshold) with a 3-byte marker at the insertion points; the corpus model pins the unpadded rendering",
 			"for sources that fail, only the failure class (parse error / render error / panic) is compared, not the message",
 			"templates up to 300 000 bytes; larger size classes are not explored",
@@ -446,11 +511,14 @@ func main() {
 			}
 			runSmall(t, 0, 4)
 			runPad(t)
+			runTagSeq(t, 5)
 			runSmall(t, 5, maxLen)
 		},
 		Extra: func(tier string, cov map[string]interface{}) {
 			cov["total_lengths"] = sizes(tier == "thorough")
 			cov["corpus_templates"] = len(corpus)
+			cov["comment_templates"] = len(commentBases)
+			cov["tag_sequence_pieces"] = len(tagPieces)
 		},
 	})
 }
